@@ -416,11 +416,13 @@ func replayNative(pkg string, files []string, race bool) (map[string]replayOutco
 
 // reproduces reports whether the native outcome confirms the engine's violation.
 func reproduces(v replayDoc, o replayOutcome) bool {
-	if o.Assume {
+	if o.Assume && v.Kind != "assert" {
 		return false
 	}
 	switch v.Kind {
 	case "assert":
+		// An assertion that failed natively failed before any later assumption was evaluated (a violated
+		// assumption ends the native run): the engine checked it under the same, earlier path condition.
 		for _, id := range o.Failed {
 			if id == v.Msg {
 				return true
